@@ -285,6 +285,29 @@ M("C13", "eq-ignores-annotator-names", CONT,
   """        if self.annotators != other.annotators:
             return False
 """, "", "R-C13-6")
+M("C13", "merge-return-polarity-flipped", CONT,
+  """        if not in_place:
+            return current_cont
+""", """        if in_place:
+            return current_cont
+""", "R-C13-5")
+M("C13", "merge-return-none-out-of-place", CONT,
+  """        if not in_place:
+            return current_cont
+""", """        return None if not in_place else current_cont
+""", "R-C13-5")
+B("C13", "merge-return-conditional-expression", CONT,
+  """        if not in_place:
+            return current_cont
+""", """        return None if in_place else current_cont
+""")
+B("C13", "merge-always-returns-target-when-out-of-place", CONT,
+  """        if not in_place:
+            return current_cont
+""", """        if in_place:
+            return
+        return current_cont
+""")
 M("C13", "merge-in-place-skips-empty-annotators", CONT,
   """        for annotator in continuum.annotators:
             # ensure all annotators are added to the continuum,
